@@ -328,6 +328,28 @@ impl Msg {
     }
 }
 
+impl Msg {
+    /// Like `diff`, but the *position* of records inside a section is not compared: each section must hold the
+    /// same records (as a multiset), and the records other than `new` must keep their relative order.
+    pub fn diff_unordered_insert(&self, want: &Msg, new: &[(usize, Record)]) -> Option<String> {
+        let mut a = self.clone();
+        let mut w = want.clone();
+        // remove the inserted records from both sides (any position), then compare in order
+        for (s, r) in new {
+            match a.sec[*s].iter().position(|x| x.eq_mode(r, false)) {
+                Some(i) => {
+                    a.sec[*s].remove(i);
+                }
+                None => return Some(format!("section {} does not hold the inserted record {:?}", s, r)),
+            }
+            if let Some(i) = w.sec[*s].iter().rposition(|x| x.eq_mode(r, false)) {
+                w.sec[*s].remove(i);
+            }
+        }
+        a.diff(&w, false, true)
+    }
+}
+
 pub fn hex(b: &[u8]) -> String {
     let mut s = String::with_capacity(b.len() * 2);
     for c in b {
